@@ -14,6 +14,14 @@ CHECKS = {
    "Closure of the reachable states (heap array order as exposed by Iterate) of the real xheap.Heap (<=7/9 items, 3 priorities with ties, every initial slice up to length 6/8) and xheap.PriorityQueue (6/7 keys, 3 priorities, every initial list up to length 4/5 incl. duplicate keys), built with less and with compare, under Push/Pop resp. Update/Remove/Pop. After every transition: Len, Peek minimality, Pop minimality and membership, Contains/Priority of every key (also absent ones), Iterate as a set, panics on empty. Exhaustive within the size bounds.",
    "Items are opaque except through the comparison (parametricity): tied items are interchangeable in the state key. Heaps larger than the size bound are not explored.",
    "DESIGN.md §4 C05"),
+ "C04": ("seqx", "explicit-state BFS closure over every reachable ring-buffer configuration (capacity <= 36/72) from the zero value, plain-slice reference model, full observation and raw-slot retention check on every state",
+   "Closure, from the zero value, of every reachable (buffer nil/allocated, capacity, front, back, occupancy) configuration of the real Deque with capacity up to 36 (quick) / 72 (thorough, so the 16->32->64 doubling of a wrapped full buffer is inside), under PushFront/PushBack/PopFront/PopBack/Set/Grow/Shrink with every argument class. Every transition checks the returned value or the panic-leaves-state-unchanged clause; every state gets Len, Front, Back, Item(-1..len), Iterate and the raw-slot retention check (hook). Exhaustive within the capacity bound.",
+   "Element values are opaque to the deque (parametricity). Read-only hook container/deque/verif_export.go is trusted to report the private fields faithfully. Capacities above the bound are not explored.",
+   "DESIGN.md §4 C04"),
+ "C15": ("seqx", "exhaustive enumeration of (reachable container state x iterator position x mutation x second mutation) on the real containers, snapshot-or-panic oracle",
+   "For every reachable deque configuration (capacity <= 20/34, length <= 5/6), heap (<= 5/6 items, every initial slice) and priority queue (4/5 keys) state: every iterator position 0..len, every mutating operation from the property's list and every second mutation (or none), then iteration continued to exhaustion or panic. Oracle: yielded items are a correct prefix of the snapshot (sequence for the deque, multiset for heap/queue), exhaustion only after the whole snapshot, and a mandatory panic on the next call once iteration is under way and an element was added or removed.",
+   "A value-only overwrite (Deque.Set, Update of a present key) is not an element change: old or new value or a panic are all accepted. The snapshot may be taken at Iterate() or at the first Next(). Larger containers and more than two mid-iteration mutations are outside the bound.",
+   "DESIGN.md §4 C15"),
 }
 props = [json.loads(l) for l in open(os.path.join(ROOT, "properties.jsonl"))]
 hook_commits = subprocess.run(["git","-C","/repo","log","--format=%H %s","--grep=^verif hook"],capture_output=True,text=True).stdout.strip().splitlines()
